@@ -10,6 +10,11 @@ CHECKS = {
    technique='bounded symbolic execution (CrossHair/z3) of nodeio.parse_smtlib against a reference SMT-LIB reader on a fully symbolic text, path-exhaustive per partition; counterexamples replayed natively',
    text='Every Unicode text up to the stated length (quick 4, thorough 6 characters, plus lexeme-level texts in thorough) is covered: each explored path stands for all texts satisfying its path condition and z3 shows the remaining branches infeasible. Bounded, not a proof for longer texts; lexer bugs sit at boundaries between two or three adjacent lexeme classes, which the bound covers.',
    note='Trusted: CrossHair 0.0.110 string model and z3; the 60-line reference reader (validated against the repository\'s own parser tests at start-up); hash shim mode S. Outside: longer texts, token directly followed by a quote without separator, unbalanced input.'),
+ 'C09': dict(
+   category='model_checking', design_ref='DESIGN.md 5 C09',
+   technique='bounded symbolic execution (CrossHair/z3) of checker.matches_golden / check / execute with all options, golden records and run outcomes symbolic, against the documented rule; exhaustive per partition',
+   text='All combinations of the nine comparison options, match strings, exit codes (unbounded ints) and streams (strings up to the bound) are solver-quantified; check() wiring is verified for main and cross-check command, execute() argv and the candidate file extension with fakes for Popen/resource/tempfile. Every partition must come back exhausted.',
+   note='Trusted: CrossHair/z3 string and int models; spec_checker.py (12-line restatement of docs/quickstart.rst). Stubs: checker.execute (wiring), subprocess/resource/tempfile fakes (invoke). Outside: strings longer than the bound, a real subprocess.'),
 }
 NOT_APPLICABLE = {}
 ALL = ['C%02d' % i for i in range(1, 19)]
